@@ -43,6 +43,7 @@ fn main() {
         "abi-record" => iox::abi_record(&args),
         "conc-record" => iox::conc_record(&args),
         "params-replay" => stream::params_replay(&args),
+        "match-record" => stream::match_record(&args),
         "stream-record" => stream::record(&args),
         "hist-record" => hist::record(&args),
         other => {
